@@ -15,6 +15,7 @@ import (
 	"fmt"
 	"net"
 	"os"
+	"runtime"
 	"strings"
 	"sync"
 	"time"
@@ -87,6 +88,19 @@ func (s *capSink) Close() {
 		s.lg.closed = true
 	}
 	s.c.mu.Unlock()
+}
+
+// contains counts the units that hold the text anywhere
+func (c *capture) contains(want string) int {
+	c.mu.Lock()
+	defer c.mu.Unlock()
+	n := 0
+	for _, u := range c.units {
+		if bytes.Contains(u, []byte(want)) {
+			n++
+		}
+	}
+	return n
 }
 
 func (c *capture) count(want string, exact bool) int {
@@ -222,7 +236,16 @@ func runCase(k badKind, disconnect, style string, concurrent bool) (string, stri
 		connC.Write([]byte(s3 + "\n"))
 	}
 	stream := []byte(s1 + "\n" + k.data + s2 + "\n")
+	if disconnect == "reset-after-read" {
+		stream = stream[:len(stream)-1]
+	}
 	werr := writeFragments(connA, stream, style)
+	if concurrent {
+		// connections are served side by side: the other connection's record (written and followed by a flush interval
+		// of silence) comes out while this connection is still open (a listener serving one connection at a time never
+		// gets there: the case stalls and the watchdog reports it)
+		waitFor(func() bool { return r.cap.count(s3, true) >= 1 })
+	}
 	switch disconnect {
 	case "close":
 		connA.Close()
@@ -231,6 +254,12 @@ func runCase(k badKind, disconnect, style string, concurrent bool) (string, stri
 		time.Sleep(2 * time.Millisecond)
 		connA.Close()
 	case "reset":
+		connA.(*net.TCPConn).SetLinger(0)
+		connA.Close()
+	case "reset-after-read":
+		// S2 is written WITHOUT its newline, so it stays in the framer; once S1 is out the single loopback segment, S2 included,
+		// has been read by the agent. TCP can only discard unread data: a reset now must not lose what was already read.
+		waitFor(func() bool { return r.cap.count(s1, false) >= 1 })
 		connA.(*net.TCPConn).SetLinger(0)
 		connA.Close()
 	case "cut-mid-record":
@@ -251,7 +280,7 @@ func runCase(k badKind, disconnect, style string, concurrent bool) (string, stri
 	if concurrent {
 		waitFor(func() bool { return r.cap.count(s3, true) >= 1 })
 	}
-	if disconnect != "reset" && werr == nil {
+	if disconnect != "reset" && disconnect != "reset-after-read" && werr == nil {
 		// an orderly close delivers everything that was written: the records around the bad input must arrive
 		waitFor(func() bool { return r.cap.count(s1, false) >= 1 })
 		if len(k.data) < 40000 { // behind an over-limit line the known stream-level finding applies (seq_stream decides it)
@@ -263,6 +292,20 @@ func runCase(k badKind, disconnect, style string, concurrent bool) (string, stri
 	}
 	if n := r.cap.count(s4, true); n != 1 {
 		return "listener:later-record-duplicated", fmt.Sprintf("the record of the later connection came out %d times", n)
+	}
+	for _, x := range []struct{ what, text string }{{"first", s1}, {"second", s2}, {"other connection's", s3}} {
+		if n := r.cap.count(x.text, true); n > 1 {
+			return "listener:record-duplicated", fmt.Sprintf("the %s record came out %d times", x.what, n)
+		}
+	}
+	// every connection of this case is closed: the agent closes every sink it opened (a stalled case = a sink never closed)
+	waitFor(func() bool { r.cap.mu.Lock(); defer r.cap.mu.Unlock(); return r.cap.open == 0 })
+	if disconnect == "reset-after-read" && werr == nil {
+		// the connection's sink is closed, so the agent is through with it: what it had read before the reset must have come
+		// out (S2 had no newline yet: alone, or attached to the record in front of it like any unfinished last line)
+		if n := r.cap.contains(s2); n != 1 {
+			return "listener:record-already-read-lost-at-reset", fmt.Sprintf("the second record had been read by the agent (it arrived in the same segment as the first, which was already out) when the connection was reset; it came out %d times", n)
+		}
 	}
 	if r.stop.Peek() {
 		return "listener:stopped", "the listener stopped by itself"
@@ -289,6 +332,7 @@ func countFDs() int {
 func runDisconnectCycles(disconnect string) (string, string) {
 	r := getRig()
 	const n = 60
+	g0 := runtime.NumGoroutine()
 	before := countFDs()
 	if before < 0 {
 		return "", "" // no /proc: not observable here
@@ -314,9 +358,21 @@ func runDisconnectCycles(disconnect string) (string, string) {
 	for i := 0; i < 6000; i++ {
 		growth = countFDs() - before
 		if growth < 10 {
-			return "", ""
+			break
 		}
 		time.Sleep(10 * time.Millisecond)
+	}
+	if growth < 10 {
+		// ... and the goroutines serving a connection (reader, closer) end with it
+		gg := 0
+		for i := 0; i < 6000; i++ {
+			gg = runtime.NumGoroutine() - g0
+			if gg < 10 {
+				return "", ""
+			}
+			time.Sleep(10 * time.Millisecond)
+		}
+		return "listener:goroutine-leak-per-disconnect", fmt.Sprintf("after %d sequential clients that disconnected (%s) the process runs %d more goroutines than before, still a minute later", n, disconnect, gg)
 	}
 	return "listener:descriptor-leak-per-disconnect", fmt.Sprintf("after %d sequential clients that disconnected (%s) the process holds %d more open descriptors than before, still a minute later: the agent does not close its side of the connections", n, disconnect, growth)
 }
@@ -331,10 +387,13 @@ func enumerate(ctx *seq.Ctx) {
 	}
 	for _, k := range kinds() {
 		ctx.Group("listener/" + k.name)
-		for _, disc := range []string{"close", "half-close", "reset", "cut-mid-record"} {
+		for _, disc := range []string{"close", "half-close", "reset", "reset-after-read", "cut-mid-record"} {
 			for _, style := range []string{"whole", "lines", "halves-with-pause", "bytes-37"} {
 				if style == "bytes-37" && len(k.data) > 20000 {
 					continue
+				}
+				if disc == "reset-after-read" && (style != "whole" || len(k.data) > 20000) {
+					continue // only a single small write is known to have been read completely once its first record is out
 				}
 				for _, conc := range []bool{false, true} {
 					k, disc, style, conc := k, disc, style, conc
